@@ -507,6 +507,7 @@ func oraclesForBuild(c bcase) string {
 }
 
 func genC02(r *rng, n int, tier string, emit func(string, ...string)) {
+	genUuid(r.fork(), 40+n/20, tier, emit)
 	for i := 0; i < n; i++ {
 		sub := r.fork()
 		c := genBuildCase(sub)
